@@ -117,6 +117,39 @@ func init() {
 				}
 			}
 		}
+		// tags reach the wire only while message-tags is enabled (ACK adds it, DEL removes it)
+		if !sc.DisableTracking {
+			mt := false
+			for sti, s := range steps {
+				if s[0] == 'R' {
+					if e := girc.ParseEvent(s[1:]); e != nil && e.Command == "CAP" && len(e.Params) >= 2 {
+						for _, tok := range strings.Split(e.Last(), " ") {
+							if i := strings.IndexByte(tok, '='); i >= 0 {
+								tok = tok[:i]
+							}
+							if tok == "message-tags" {
+								if e.Params[1] == "ACK" && len(e.Params) == 3 {
+									mt = true
+								}
+								if e.Params[1] == "DEL" {
+									mt = false
+								}
+							}
+						}
+					}
+				}
+				if strings.HasPrefix(s, "CSendRaw\x00@") {
+					for _, l := range cmp.PerStep[sti] {
+						if strings.HasPrefix(l, "@") && !mt {
+							c.R.Violation("c08.tags_without_cap", hin, l, "", "message tags were put on the wire while message-tags is not enabled")
+						}
+						if !strings.HasPrefix(l, "@") && mt {
+							c.R.Violation("c08.tags_dropped", hin, l, "", "message tags were dropped although message-tags is enabled")
+						}
+					}
+				}
+			}
+		}
 		nReq, nEnd, nAuth := 0, 0, 0
 		for _, l := range cmp.ImplW {
 			e := girc.ParseEvent(l)
@@ -200,6 +233,16 @@ func runC08(c *Ctx) {
 	r.Rule = "real sessions: server behaviours over CAP LS (0-3 '*' continuation lines), ACK (of what was requested, of a subset, of junk), NAK, NEW, DEL in any order, capability lists drawn from supported/unsupported/junk with and without values, " +
 		"crossed with configurations (SASL on/off, extra SupportedCaps with and without values, DisableSTS, SSL, tracking disabled); state dumps (enabled/pending caps) and HasCapability compared with the model, " +
 		"safety/conclusion predicates evaluated on the implementation; non-trivial = a final LS line advertising >= 2 capabilities; distinct = distinct (config, history)"
+	for _, hist := range [][]string{
+		{"R:srv CAP * LS :message-tags multi-prefix", "R:srv CAP * ACK :message-tags multi-prefix", "CSendRaw\x00@+a=b PRIVMSG #c :one", "R:srv CAP me DEL :message-tags", "D", "CSendRaw\x00@+a=b PRIVMSG #c :two", "CSendRaw\x00@+a=b PRIVMSG #c :three", "D"},
+		{"R:srv CAP * LS :message-tags", "R:srv CAP * ACK :message-tags", "CSendRaw\x00@x=y NOTICE bob :one", "R:srv CAP me DEL :message-tags", "CSendRaw\x00@x=y NOTICE bob :two", "R:srv CAP me NEW :message-tags", "R:srv CAP me ACK :message-tags", "CSendRaw\x00@x=y NOTICE bob :three", "D"},
+		{"CSendRaw\x00@x=y NOTICE bob :zero", "R:srv CAP * LS :multi-prefix", "R:srv CAP * ACK :multi-prefix", "CSendRaw\x00@x=y NOTICE bob :one", "D"},
+	} {
+		in := map[string]string{"nick": "me", "check": "c08", "nosts": "1"}
+		stepsToIn(in, hist)
+		c.run("session", in)
+		r.Count(fmt.Sprint(in), true, "scripted-tags")
+	}
 	pool := []string{"multi-prefix", "sasl", "sasl=PLAIN,EXTERNAL", "sts=port=6697", "sts=duration=100", "account-tag", "away-notify", "message-tags", "server-time", "foo", "foo=bar", "bar=a,b=c", "echo-message", "userhost-in-names", "draft/msgid", "", "=x", "MULTI-PREFIX", "batch"}
 	for i := 0; i < 150*c.Scale; i++ {
 		in := map[string]string{"nick": "me", "check": "c08"}
@@ -265,6 +308,10 @@ func runC08(c *Ctx) {
 			}
 			if c.Rng.Chance(30) {
 				steps = append(steps, "D")
+			}
+			if c.Rng.Chance(35) {
+				// the application sends a tagged message: the tags reach the wire only while message-tags is enabled
+				steps = append(steps, fmt.Sprintf("CSendRaw\x00@+a=b;c PRIVMSG #chan :tagged %d", k))
 			}
 		}
 		steps = append(steps, "D")
